@@ -9,7 +9,8 @@ C13 - configuration round-trips through text and has a single precedence order.
 (b) setting x channel matrix: for every setting and every witness text on which it matters, all channels
     that exist for it (config string at creation, Config object, .config assignment before parse,
     parse() keyword, parse_tracts() keyword, MasterConfig) must give identical results, for PLSSDesc and Tract;
-(c) conflicts: keyword > config string > MasterConfig for every ordered pair of distinct values.
+(c) conflicts: keyword > config string > MasterConfig for every ordered pair of distinct values, including the cross-setting
+    conflicts inside the qq_depth / qq_depth_min / qq_depth_max family.
 """
 import itertools
 import warnings
@@ -391,6 +392,40 @@ def conflict_case(acc, kind, s, v_low, v_high, text):
         acc.guard('conflict_resolved')
 
 
+def family_conflict_case(acc, kind, cfg_setting, cfg_val, kw_setting, kw_val, text):
+    """The depth settings interact: qq_depth overrides qq_depth_min/max *from the same source*, but a keyword must still win over
+    the config string: parse(qq_depth_min=M) with config 'qq_depth.N' behaves like config 'qq_depth_min.M' alone, and
+    parse(qq_depth=N) with config 'qq_depth_min.M' like config 'qq_depth.N' alone."""
+    run = plss_channel if kind == 'plss' else tract_channel
+    key = f"family|{kind}|cfg:{cfg_setting}={cfg_val}|kw:{kw_setting}={kw_val}|{text}"
+    case = {'k': 'family', 'kind': kind, 'cfg': [cfg_setting, cfg_val], 'kw': [kw_setting, kw_val], 'text': text}
+    try:
+        pure_kw = run('config_str', text, kw_setting, kw_val)
+        pure_cfg = run('config_str', text, cfg_setting, cfg_val)
+        chans = ['parse_kw_commit', 'parse_kw_nocommit'] if kind == 'plss' else ['parse_kw', 'tractlist_parse_tracts']
+        if kind == 'plss':
+            chans.append('parse_tracts_kw')
+        got = {ch: run(ch, text, kw_setting, kw_val, base_cfg=cfg_token(cfg_setting, cfg_val)) for ch in chans}
+    except Exception as ex:  # noqa
+        acc.case(key, 'EXC')
+        acc.violation('conflict_exception', f"C13:conflict_exception:{kind}:{cfg_setting}/{kw_setting}", case, got=f"{type(ex).__name__}: {ex}")
+        return
+    acc.case(key, got, nontrivial=pure_kw != pure_cfg)
+    acc.states += 1
+    acc.transitions += 1
+    for ch, g in got.items():
+        if g != pure_kw:
+            acc.violation('keyword_does_not_win', f"C13:keyword_does_not_win:{kind}:{cfg_setting}/{kw_setting}:{ch}", case, got=g, exp=pure_kw,
+                          note=f"config string {cfg_token(cfg_setting, cfg_val)} vs keyword {kw_setting}={kw_val!r} through {ch}")
+            return
+    if pure_kw != pure_cfg:
+        acc.guard('family_conflict_resolved')
+
+
+FAMILY_TEXTS = {'plss': ['T154N-R97W Sec 14: N/2NE/4', 'T154N-R97W Sec 14: N/2NE/4NE/4, Sec 15: ALL'],
+                'tract': ['N/2NE/4', 'N/2NE/4NE/4, ALL']}
+
+
 # ------------------------------------------------------------------ driver
 def units(tier):
     maxk = 3 if tier == 'quick' else 4
@@ -403,6 +438,7 @@ def units(tier):
         us.append({'k': 'matrix', 'kind': 'plss', 's': s})
     for s in TW:
         us.append({'k': 'matrix', 'kind': 'tract', 's': s})
+    us.append({'k': 'family'})
     return us
 
 
@@ -425,6 +461,15 @@ def run_unit(unit, tier):
     elif unit['k'] == 'unknown':
         for nm in unknown_names():
             unknown_case(acc, nm)
+    elif unit['k'] == 'family':
+        for kind in ('plss', 'tract'):
+            for text in FAMILY_TEXTS[kind]:
+                for n in (1, 2, 3):
+                    for m in (1, 2, 3):
+                        family_conflict_case(acc, kind, 'qq_depth', n, 'qq_depth_min', m, text)
+                        family_conflict_case(acc, kind, 'qq_depth', n, 'qq_depth_max', m, text)
+                        family_conflict_case(acc, kind, 'qq_depth_min', m, 'qq_depth', n, text)
+                        family_conflict_case(acc, kind, 'qq_depth_max', m, 'qq_depth', n, text)
     else:
         kind, s = unit['kind'], unit['s']
         table = PW if kind == 'plss' else TW
@@ -452,6 +497,8 @@ def replay(case):
     elif case['k'] == 'matrix':
         matrix_case(acc, case['kind'], case['setting'], case['value'], case['text'])
         return [v for v in acc.viol if v['case']['channel'] == case['channel']]
+    elif case['k'] == 'family':
+        family_conflict_case(acc, case['kind'], case['cfg'][0], case['cfg'][1], case['kw'][0], case['kw'][1], case['text'])
     else:
         conflict_case(acc, case['kind'], case['setting'], case['low'], case['high'], case['text'])
     return acc.viol
@@ -466,7 +513,7 @@ def guards(info):
     for s in TW:
         if not g.get(f"sensitive_tract_{s}"):
             out.append(f"no sensitive witness for Tract setting {s}")
-    for name in ('config_roundtrip_ok', 'unknown_rejected', 'conflict_resolved'):
+    for name in ('config_roundtrip_ok', 'unknown_rejected', 'conflict_resolved', 'family_conflict_resolved'):
         if not g.get(name):
             out.append(f"never observed: {name}")
     return out
